@@ -120,7 +120,7 @@ class Report:
                 lines.append("VIOLATION property=%s replay=%s" % (self.prop, path))
                 if n_viol > 15:
                     continue            # the violation file has the details; keep the console readable
-                lines.append("  rule %s: %s" % (v["rule"], v["what"][:600]))
+                lines.append("  rule %s: %s" % (v["rule"], str(v["what"])[:600]))
                 lines.append("  at %s in %s [%s]" % (v.get("where") or "?", v["function"], v["construct"]))
                 if v.get("detail"):
                     lines.append("  detail: %s" % (v["detail"] if isinstance(v["detail"], str) else json.dumps(v["detail"])[:600]))
